@@ -92,6 +92,30 @@ def gen(rng, tier):
         line = "%s %s %s I %s %s 1 R %s %s 1" % (op, KO.KIND[d['kind']], S.args(d), KO.opt(prm), ",".join(map(str, nr)),
                                                  KO.opt(prm), ",".join(map(str, nt)))
         out.append(Case(kind, line, dict(shape=d, dir=i, prm=prm, nr=nr, nt=nt)))
+    # degree mix-up probes (deterministic in what they cover): every direction i of a surface / volume in turn, ANOTHER direction
+    # has a degree >= degree_i + 2, the knot goes into the FIRST span of direction i (a span / multiplicity search run with the
+    # wrong direction's degree starts too far right and only shows there), one copy in, one copy out
+    for turn in range(5 if tier == 'quick' else 50):
+        kind_ = 'volume' if turn % 5 < 3 else 'surface'
+        i = turn % 5 if kind_ == 'volume' else turn % 5 - 3
+        d = None
+        for _try in range(400):
+            c_ = S.rand_volume(rng, maxp=3, max_interior=2) if kind_ == 'volume' else S.rand_surface(rng, maxp=4, max_interior=3)
+            ds_ = S.dirs(c_)
+            p, kv, n_ = ds_[i]
+            if any(q_[0] >= p + 2 for j_, q_ in enumerate(ds_) if j_ != i) and n_ > p + 1:
+                d = c_
+                break
+        if d is None:
+            continue
+        p, kv, n_ = S.dirs(d)[i]
+        u = kv[p] + (kv[p + 1] - kv[p]) * F(rng.randint(1, 9), 10)
+        nd_ = len(S.dirs(d))
+        prm = [None] * nd_; prm[i] = u
+        nr = [0] * nd_; nr[i] = 1
+        line = "ops %s %s I %s %s 1 R %s %s 1" % (KO.KIND[d['kind']], S.args(d), KO.opt(prm), ",".join(map(str, nr)),
+                                                KO.opt(prm), ",".join(map(str, nr)))
+        out.append(Case('ins-rem', line, dict(shape=d, dir=i, prm=prm, nr=nr, nt=list(nr)), tags=('degree-mixup-probe',)))
     # volumes through the METHOD interface, two copies in one direction (keyword plumbing per direction)
     for _ in range(9 if tier == 'quick' else 90):
         d = S.rand_volume(rng, maxp=3, max_interior=1)
